@@ -397,3 +397,86 @@ func TestGovcReplayIntraReceiverShutdown(t *testing.T) {
 	}
 	fmt.Println("REPLAY-OK the worker ended with the stream")
 }
+
+// ---- C08 / C09: a second reconcile tick while the first intra-proxy receiver is still connecting ----
+
+type govcCountingAdminServer struct {
+	adminservice.UnimplementedAdminServiceServer
+	mu      sync.Mutex
+	streams int
+}
+
+func (s *govcCountingAdminServer) StreamWorkflowReplicationMessages(st adminservice.AdminService_StreamWorkflowReplicationMessagesServer) error {
+	s.mu.Lock()
+	s.streams++
+	s.mu.Unlock()
+	<-st.Context().Done()
+	return nil
+}
+
+// slowListener delays the first Accept, like a peer that is slow to take connections.
+type govcSlowListener struct {
+	net.Listener
+	once  sync.Once
+	delay time.Duration
+}
+
+func (l *govcSlowListener) Accept() (net.Conn, error) {
+	l.once.Do(func() { time.Sleep(l.delay) })
+	return l.Listener.Accept()
+}
+
+func govcDuplicateIntraReceivers() string {
+	base, err := net.Listen("tcp", "127.0.0.1:0")
+	if err != nil {
+		return ""
+	}
+	srvImpl := &govcCountingAdminServer{}
+	srv := grpc.NewServer()
+	adminservice.RegisterAdminServiceServer(srv, srvImpl)
+	go func() { _ = srv.Serve(&govcSlowListener{Listener: base, delay: 1500 * time.Millisecond}) }()
+	defer srv.Stop()
+
+	cfg := &config.MemberlistConfig{Enabled: true, NodeName: "me", BindAddr: "127.0.0.1", BindPort: 0,
+		ProxyAddresses: map[string]string{"peer": base.Addr().String()}}
+	sm := NewShardManager(cfg, config.ShardCountConfig{Mode: config.ShardCountRouting}, encryption.TLSConfig{}, govcRegLoggers{}).(*shardManagerImpl)
+	mgr := sm.GetIntraProxyManager()
+	if mgr == nil {
+		return ""
+	}
+	tgt := history.ClusterShardID{ClusterID: 2, ShardID: 1}
+	src := history.ClusterShardID{ClusterID: 1, ShardID: 1}
+	key := peerStreamKey{targetShard: tgt, sourceShard: src}
+	ctx, cancel := context.WithCancel(context.Background())
+	defer cancel()
+	// two reconcile ticks, one second apart, while the peer is slow to accept the connection
+	if err := mgr.ensureStream(ctx, log.NewNoopLogger(), "peer", tgt, src); err != nil {
+		return ""
+	}
+	time.Sleep(1100 * time.Millisecond)
+	if err := mgr.ensureStream(ctx, log.NewNoopLogger(), "peer", tgt, src); err != nil {
+		return ""
+	}
+	time.Sleep(1500 * time.Millisecond) // both connection attempts have gone through by now
+	srvImpl.mu.Lock()
+	streams := srvImpl.streams
+	srvImpl.mu.Unlock()
+	mgr.streamsMu.RLock()
+	registered := 0
+	if ps := mgr.peers["peer"]; ps != nil && ps.receivers[key] != nil {
+		registered = 1
+	}
+	mgr.streamsMu.RUnlock()
+	if streams > 1 {
+		return fmt.Sprintf("two reconcile ticks while the peer was slow to accept: %d live intra-proxy streams for the same peer/shard pair, %d of them registered - the other one is an orphan that nothing will ever close", streams, registered)
+	}
+	return ""
+}
+
+func TestGovcReplayDuplicateIntraReceivers(t *testing.T) {
+	if m := govcDuplicateIntraReceivers(); m != "" {
+		fmt.Println("REPLAY-VIOLATION", m)
+		return
+	}
+	fmt.Println("REPLAY-OK one stream per peer/shard pair")
+}
